@@ -19,13 +19,14 @@ def elbow(rng, amax):
     if rng.random() < 0.25:
         b = rng.choice([3, 4])
     gaps = [rng.choice([1, 2, 3, 4]) for _ in range(a + b)] if rng.random() < 0.7 else [rng.choice([1, 2, 3, 4])] * (a + b)
-    x = [float(rng.choice([0, 1, 5, 1024]))]
+    # offsets are any exactly representable numbers: also far larger than the elbow's own extent (2^22, 2^30)
+    x = [float(rng.choice([0, 1, 5, 1024, 0, 1, 5, 1024, 2 ** 22, 2 ** 30]))]
     for g in gaps:
         x.append(x[-1] + g)
     j1 = rng.randrange(-64, 65)
     j2 = rng.choice([j for j in range(-64, 65) if j != j1])
     s1, s2 = j1 / 8.0, j2 / 8.0
-    y0 = rng.choice([0.0, 1.0, 0.5, 37.25, 4096.0, 100.0])
+    y0 = rng.choice([0.0, 1.0, 0.5, 37.25, 4096.0, 100.0, 0.0, 1.0, 0.5, 37.25, 4096.0, 100.0, 2.0 ** 22, -2.0 ** 22, 2.0 ** 30])
     c = a
     y = [y0 + s1 * (xi - x[0]) for xi in x[:c + 1]]
     y += [y[c] + s2 * (xi - x[c]) for xi in x[c + 1:]]
